@@ -1,8 +1,13 @@
 /- C14 line-protocol driver: prints `model <TAB> spec` for each case line.
 
    `<op> t=<type> [u=<type>] a=<int>|as=[..] [b=<int>|bs=[..]]`
-   types: u8 u16 u32 u64 i8 i16 i32 i64.  With a list argument the op is evaluated for every element
-   and the results are printed as `[r1,r2,...]`. -/
+   types: u8 u16 u32 u64 ull i8 i16 i32 i64 ll, and the character types of the `integral` functions
+   (byteswap, abs, ilog2, ipow, ipow<2>, idiv, midpoint, gcd, lcm) as the model type of the same width and
+   signedness on x86-64 Linux: ch = char (signed 8), wch = wchar_t (signed 32), ch8 = char8_t (unsigned 8),
+   ch16 = char16_t (unsigned 16), ch32 = char32_t (unsigned 32).
+   `midpoint_ptr t=i64 n=<len> a=<index> bs=[index,..]`: the pointer overload of midpoint on an array of
+   `n` elements, pointers and result as indices.
+   With a list argument the op is evaluated for every element and the results are printed as `[r1,r2,...]`. -/
 import Tetl.Proto
 import Tetl.C14.Model
 import Tetl.C14.Spec
@@ -13,7 +18,14 @@ def tyOf : String → Option ITy
   | "u8" => some ⟨8, false⟩ | "u16" => some ⟨16, false⟩ | "u32" => some ⟨32, false⟩ | "u64" => some ⟨64, false⟩
   | "ull" => some ⟨64, false⟩ | "ll" => some ⟨64, true⟩
   | "i8" => some ⟨8, true⟩ | "i16" => some ⟨16, true⟩ | "i32" => some ⟨32, true⟩ | "i64" => some ⟨64, true⟩
+  | "ch" => some ⟨8, true⟩ | "wch" => some ⟨32, true⟩
+  | "ch8" => some ⟨8, false⟩ | "ch16" => some ⟨16, false⟩ | "ch32" => some ⟨32, false⟩
   | _ => none
+
+/-- the character types: accepted only by the functions constrained by `integral` / `is_integral_v`
+    (the `builtin_integer` / `builtin_unsigned_integer` functions do not compile for them) -/
+def isCharTy (n : String) : Bool := ["ch", "wch", "ch8", "ch16", "ch32"].contains n
+def charOps : List String := ["byteswap", "abs", "ilog2", "ipow2", "midpoint", "idiv", "ipow", "gcd", "lcm"]
 
 def fmtE {α : Type} (f : α → String) : Except Err α → String
   | .ok a => f a
@@ -32,7 +44,7 @@ def six (eq lt gt : Bool) : String :=
   String.join [sB eq, sB (!eq), sB lt, sB gt, sB (!gt), sB (!lt)]
 
 /-- one evaluation: `(model, spec)`; `none` = bad-op -/
-def eval (op : String) (t : ITy) (u : Option ITy) (a : Int) (b : Option Int) : Option (String × String) :=
+def eval (len : Option Int) (op : String) (t : ITy) (u : Option ITy) (a : Int) (b : Option Int) : Option (String × String) :=
   let w := t.w
   let unsArg : Option Nat := natArg t a
   match op, unsArg, b, u with
@@ -87,6 +99,10 @@ def eval (op : String) (t : ITy) (u : Option ITy) (a : Int) (b : Option Int) : O
     if !t.inR y then none else some (fmtE sI (divSat t a y), sI (Spec.clampTo t.min t.max (Int.tdiv a y)))
   | "midpoint", some y, _ =>
     if !t.inR y then none else some (fmtE sI (midpoint t a y), sI (Spec.midpoint a y))
+  | "midpoint_ptr", some y, _ =>
+    match len with
+    | some n => if t != ptrdiffT then none else some (fmtE sI (midpointPtr n a y), sI (Spec.midpoint a y))
+    | none => none
   | "idiv", some y, _ =>
     if !t.inR y then none else some (fmtE sP (idiv t a y), sP (Spec.idiv a y))
   | "ipow", some y, _ =>
@@ -113,6 +129,10 @@ def step (_ : Unit) (l : Line) : Unit × String :=
   | some t =>
     let u := (l.str? "u").bind tyOf
     if (l.get? "u").isSome && u.isNone then bad else
+    let tn := (l.str? "t").getD ""
+    if isCharTy tn && (!charOps.contains l.op || ((l.get? "u").isSome && l.str? "u" != some tn)) then bad else
+    if (l.str? "u").any isCharTy && !isCharTy tn then bad else
+    let eval := eval (l.int? "n")
     match l.int? "a", l.list? "as", l.int? "b", l.list? "bs" with
     | some a, none, b, none =>
       match eval l.op t u a b with
